@@ -18,7 +18,7 @@ import numpy as np
 from common import Budget, Script, StreamResult, err_kind, frac, nlist, rlist, rs
 
 OPS = ["set", "unset", "reveal", "unreveal", "setvalues", "setvalues_all", "setknown", "setknown_all",
-       "bounds_hi", "bounds_lo", "bounds_hi_all", "bounds_lo_all", "setlo", "sethi", "copy", "neg", "get"]
+       "bounds_hi", "bounds_lo", "bounds_hi_all", "bounds_lo_all", "setlo", "sethi", "copy", "neg", "get", "transfer", "snapshot"]
 
 
 class Obj:
@@ -202,6 +202,53 @@ def run(tier: str, budget: Budget, rnd, repo_mod) -> StreamResult:
                     if K1 != K0 or L1 != [-x for x in U0] or U1 != [-x for x in L0] or (K2, L2, U2) != (K0, L0, U0):
                         res.violation("negation does not swap-and-negate / is not an involution",
                                       {"n": n, "history": hist + [line]})
+                elif op == "transfer":
+                    # the game goes through a pickle round trip (what a Pool does to it) or copy.deepcopy: the object that comes out is
+                    # the same map coalition -> (known?, lower, upper), and the history continues with it
+                    import copy as _copy
+                    import pickle as _pickle
+                    how = rnd.choice(["pickle", "pickle", "deepcopy"])
+                    before_t = dump_impl(g)
+                    g2 = _pickle.loads(_pickle.dumps(g)) if how == "pickle" else _copy.deepcopy(g)
+                    res.count(f"op:transfer:{how}")
+                    if dump_impl(g2) != before_t:
+                        K0_, L0_, U0_ = before_t
+                        K1_, L1_, U1_ = dump_impl(g2)
+                        bad_c = next(x for x in range(len(K0_)) if (K0_[x], L0_[x], U0_[x]) != (K1_[x], L1_[x], U1_[x]))
+                        res.violation(f"a game that went through a {how} round trip is not the same map: coalition {bad_c} was "
+                                      f"(known={K0_[bad_c]}, {rs(L0_[bad_c])}, {rs(U0_[bad_c])}) and comes back as (known={K1_[bad_c]}, "
+                                      f"{rs(L1_[bad_c])}, {rs(U1_[bad_c])})", {"n": n, "history": hist + [f"tab transfer {o.name} ({how})"]},
+                                      key="table:transfer")
+                    o.game = g = g2
+                    o.kept = []
+                    hist.append(f"tab transfer {o.name} ({how})")
+                    continue
+                elif op == "snapshot":
+                    # what get_known_values() returned is the caller's: it shows the values known WHEN it was returned (NaN elsewhere),
+                    # whatever happens to the game afterwards, and writing into it does not reach the game
+                    kept = getattr(o, "kept", [])
+                    for arr, cp in kept[-4:]:
+                        if not np.array_equal(arr, cp, equal_nan=True):
+                            res.violation("the array an earlier get_known_values() returned changed after later operations on the game "
+                                          "(a live view of the table was handed out)", {"n": n, "history": hist + ["tab snapshot-check"]},
+                                          key="table:known-values-view")
+                            kept = []
+                            break
+                    arr = g.get_known_values()
+                    before_s = dump_impl(g)
+                    kept = kept + [(arr, np.array(arr, copy=True))]
+                    if rnd.random() < 0.3 and isinstance(arr, np.ndarray) and arr.size:
+                        scratch = g.get_known_values()
+                        try:
+                            scratch[...] = -12345.0
+                        except Exception:      # noqa: BLE001      a read-only result is fine
+                            pass
+                        if dump_impl(g) != before_s:
+                            res.violation("writing into the array returned by get_known_values() changed the game",
+                                          {"n": n, "history": hist + ["tab snapshot-write"]}, key="table:known-values-view")
+                    o.kept = kept
+                    res.count("op:snapshot")
+                    continue
                 elif op == "get":
                     # getters of unknown rows never return a number (oracle on the real code + model lines)
                     ok_c = c < N
